@@ -29,8 +29,16 @@ import (
 
 type uniWrap struct {
 	*unistore.RPCClient
-	mu  sync.Mutex
-	log func(M)
+	mu      sync.Mutex
+	log     func(M)
+	noClose bool // several stores share this client: closing one of them must not stop the server
+}
+
+func (c *uniWrap) Close() error {
+	if c.noClose {
+		return nil
+	}
+	return c.RPCClient.Close()
 }
 
 func (c *uniWrap) SendRequestAsync(ctx context.Context, addr string, req *tikvrpc.Request, cb async.Callback[*tikvrpc.Response]) {
